@@ -1198,6 +1198,7 @@ def check_prng(ck_ob, mod, label, generate=True):
     if not f.loops:
         raise Broken("tinyjambu_prng_generate has no loop")
     seen = set()
+    site_classes = {}
     import random
     rnd = random.Random(20261003)
     outer = [l["header"] for l in f.loops if l.get("parent", -1) == -1]
@@ -1214,6 +1215,9 @@ def check_prng(ck_ob, mod, label, generate=True):
         if reseeded:
             k = 1
         seen.add("reseed" if reseeded else "plain")
+        # per generation site (the Hash(V) call that produces output): a site that is only ever reached without the reseed test - a partial
+        # block handled outside the loop, say - produces blocks the documented generator would have produced from a reseeded state
+        site_classes.setdefault(ev[k][5], set()).add("reseed" if reseeded else "plain")
         g = p.objgen.get(ST, 0)
         want = ["tinyjambu_hash", "tinyjambu_hash_init", "tinyjambu_hash_update", "tinyjambu_hash_update", "tinyjambu_hash_finalize", "tinyjambu_hash_free"]
         if names[k:k + 6] != want:
@@ -1221,14 +1225,18 @@ def check_prng(ck_ob, mod, label, generate=True):
             continue
         e = ev[k:k + 6]
         vcur = e[0][4]
-        okv = e[0][3][1] == VP and e[0][3][2] == "32" and vcur is not None and e[0][3][0].startswith("alloca")
+        # (the digest may go to a local and be copied out, or straight to the output buffer: what is emitted is compared below)
+        okv = e[0][3][1] == VP and e[0][3][2] == "32" and vcur is not None
         c("SEQ", okv, "block-output-hash", "output block = Hash(V) over all 32 bytes of V", "output hash is %s" % (e[0][3],))
         Hobj, Hoff = _objoff(e[0][3][0])
         dig = bytes_sym("DIGEST", e[0][1], 32)
         # emitted bytes
         outs = mode.outs_of(p)
-        curs = {k_[0] for k_ in outs if k_[0][0] in ("hdp", "arg") and k_[0] != ST}
+        curs = {k_[0] for k_ in outs if k_[0][0] in ("hdp", "arg", "idx") and k_[0] != ST}
         symw = [e_ for e_ in p.events if e_[0] in ("out-sym", "store-unknown", "load-unknown", "VARMEM")]
+        if len(curs) == 1 and next(iter(curs))[0] == "idx" and next(iter(curs))[1] != ST:
+            # index style: the block is written at (output buffer + one symbolic offset) + constant offsets - that is a cursor too
+            symw = [e_ for e_ in symw if not (e_[0] == "out-sym" and ("idx", e_[1], e_[2]) in curs)]
         if not curs and not symw:
             # an iteration that emits nothing: the class 'no bytes left' at the loop head.  It is unreachable when 'remaining != 0 at the
             # head' is an inductive invariant (bottom-tested loop entered only with remaining != 0): then the class is skipped
@@ -1241,7 +1249,7 @@ def check_prng(ck_ob, mod, label, generate=True):
                     okz = True
             if okz:
                 continue
-        if len(curs) != 1 or symw or any(not isinstance(k_[1], int) for k_ in outs if k_[0] in curs) or next(iter(curs))[0] != "hdp":
+        if len(curs) != 1 or symw or any(not isinstance(k_[1], int) for k_ in outs if k_[0] in curs) or next(iter(curs))[0] not in ("hdp", "idx"):
             raise Broken("tinyjambu_prng_generate: the output of a block is not written at constant offsets of one loop-carried output cursor "
                          "(objects %s, unresolved %s): index-based or otherwise unrecognised loop shape" % (sorted(curs, key=repr), [e_[0] for e_ in symw][:2]))
         ln = None
@@ -1249,9 +1257,12 @@ def check_prng(ck_ob, mod, label, generate=True):
         for ob in curs:
             offs = sorted(k_[1] for k_ in outs if k_[0] == ob)
             ln = len(offs)
-            okb = offs == list(range(ln)) and all(tuple(outs[(ob, i)]) == dig[i] for i in range(ln)) and 1 <= ln <= 32
+            # (consecutive bytes from the cursor's first written offset: an index-style cursor splits `data + size - left` into a symbolic part and a constant)
+            o0 = offs[0] if offs else 0
+            okb = offs == list(range(o0, o0 + ln)) and all(tuple(outs[(ob, o0 + i)]) == dig[i] for i in range(ln)) and 1 <= ln <= 32 and (ob[0] == "idx" or o0 == 0)
         c("SEQ", okb and len(curs) == 1, "block-emit(%s)" % ln, "the first %s bytes of Hash(V) are emitted at the output cursor" % ln, "emitted bytes are not Hash(V)[0..len): objects %s" % sorted(curs, key=repr))
-        okp = e[2][3][2] == "1" and e[2][4] == _cbytes([3]) and e[3][3][1] == VP and e[3][3][2] == "32" and e[3][4] == vcur and e[4][3][1] == e[0][3][0] and e[1][3][0] == e[5][3][0]
+        # (where H is kept is immaterial: the sum below is formed from the digest bytes of this finalize, wherever they were put)
+        okp = e[2][3][2] == "1" and e[2][4] == _cbytes([3]) and e[3][3][1] == VP and e[3][3][2] == "32" and e[3][4] == vcur and e[1][3][0] == e[5][3][0]
         c("SEQ", okp, "block-advance-hash", "H = Hash(0x03 || V) over the same V", "state-advance hash differs: prefix %s, V %s -> %s" % (e[2][4] and [gf2.is_const(list(b)) for b in e[2][4]], e[3][3], e[4][3]))
         hp = bytes_sym("DIGEST", e[4][1], 32)
         # V' = V + H + C + counter (256-bit big-endian): support sets + evaluation on corner / random assignments
@@ -1270,6 +1281,11 @@ def check_prng(ck_ob, mod, label, generate=True):
         okc = all((ST, C + i) not in p.mem or p.mem[(ST, C + i)] == p.start_mem.get((ST, C + i), p.mem[(ST, C + i)]) for i in range(32))
         c("DEP", okc, "block-C", "C is not modified by generate", "generate modifies C")
         n += 6
+    for si_, (site, cls_) in enumerate(sorted(site_classes.items())):
+        if len(site_classes) > 1:
+            c("SEQ", {"plain", "reseed"} <= cls_, "generate-classes(site %d)" % (si_ + 1), "the block generated at %s exists both with and without the automatic reseed in front of it" % relpath(f.insts[site].where),
+              "the block generated at %s is only ever produced %s the automatic reseed test: the reseeds do not fall where the documented generator has them" % (relpath(f.insts[site].where), "without" if cls_ == {"plain"} else "after"),
+              relpath(f.insts[site].where))
     c("SEQ", {"plain", "reseed"} <= seen, "generate-classes", "the per-block iteration exists both with and without the automatic reseed", "the per-block iteration of generate has only the class(es) %s: the automatic reseed is not decided per block" % sorted(seen))
     # ---- plain init is init_user(system source)
     g_ = mod.fn("tinyjambu_prng_init")
